@@ -315,6 +315,9 @@ def gen_value(rng, f, big_ok=True, present=None):
     raise ValueError(k)
 
 
+INPLACE = [0]
+
+
 def to_lib(rng, f, v):
     """Value handed to the library (names in a random accepted form, bytes in random binary types)."""
     k = f['kind']
@@ -336,10 +339,21 @@ def to_lib(rng, f, v):
         m = f['spec']['cls']()
         for sf in f['spec']['fields']:
             sv = v.get(sf['name'])
+            inplace = rng.random() < 0.3      # filled through the attribute of the fresh model (m.items.append(x), m.table[k] = v) as the library itself does
             if sf['kind'] in ('rep',):
-                setattr(m, sf['name'], [to_lib(rng, sf['elem'], e) for e in sv])
+                if inplace:
+                    for e in sv:
+                        getattr(m, sf['name']).append(to_lib(rng, sf['elem'], e))
+                    INPLACE[0] += 1
+                else:
+                    setattr(m, sf['name'], [to_lib(rng, sf['elem'], e) for e in sv])
             elif sf['kind'] == 'map':
-                setattr(m, sf['name'], {kk: to_lib(rng, sf['val'], vv) for kk, vv in sv.items()})
+                if inplace:
+                    for kk, vv in sv.items():
+                        getattr(m, sf['name'])[kk] = to_lib(rng, sf['val'], vv)
+                    INPLACE[0] += 1
+                else:
+                    setattr(m, sf['name'], {kk: to_lib(rng, sf['val'], vv) for kk, vv in sv.items()})
             else:
                 if sv is None and sf['kind'] == 'uint' and sf.get('default') is not None:
                     continue     # leave unassigned: the default applies
@@ -499,7 +513,10 @@ def check_value(ctx, rng, spec, value, thorough_gaps):
     ref = enc_items(items)
     w['ref'] = ref if len(ref) < 400 else ref[:200]
     try:
+        n_in = INPLACE[0]
         m = to_lib(rng, top, value)
+        if INPLACE[0] > n_in:
+            ctx.event('container-field-filled-in-place')
         markers = {}
         announced = m.encoded_length(markers)
         wire = bytes(m.encode(markers=markers))
@@ -662,7 +679,7 @@ def run(ctx):
             check_value(ctx, rng, spec, value, thorough_gaps=not ctx.quick)
             ctx.case(('shipped', cls.__name__, shape(value)), nontrivial=npresent >= 2)
             ctx.klass('shipped-values')
-    for k in ('roundtrip', 'gap-plain-noncrit', 'gap-plain-crit', 'gap-map-kv-noncrit', 'dup-critical', 'swap-critical'):
+    for k in ('roundtrip', 'gap-plain-noncrit', 'gap-plain-crit', 'gap-map-kv-noncrit', 'dup-critical', 'swap-critical', 'container-field-filled-in-place'):
         ctx.need_event(k)
     ctx.assumptions = ['critical = odd type', 'BoolField False == absent', 'fields with a default are left unassigned rather than set to None',
                        'name fields use type 7 only; type numbers are distinct within one model (unambiguous decoding)']
